@@ -163,4 +163,74 @@ def viewTx (era : EraKind) (bs : Bytes) : Option (Tx OutId) :=
     | _, _ => none
   | _ => none
 
+/-! ## blocks -/
+
+/-- the parts of `[tag, [header, bodies, wits, aux, ?invalid]]` (post-Byron), of a Byron main block
+    `[1, [header, [tx_payload, ..], extra]]` or of an epoch-boundary block `[0, [header, ..]]`,
+    each part still a syntax tree (its `encode` is the original byte span) -/
+structure BlockView where
+  tag : Nat
+  header : Item
+  bodies : List Item
+  wits : List Item
+  auxWire : List (Nat × Item)
+  invalid : Option (List Nat)
+  /-- Byron: the `[tx, witnesses]` items -/
+  payloads : List Item
+  deriving Inhabited
+
+def auxEntries? : List (Item × Item) → Option (List (Nat × Item))
+  | [] => some []
+  | (k, v) :: rest =>
+    match k.uint?, auxEntries? rest with
+    | some n, some r => some ((n, v) :: r)
+    | _, _ => none
+
+def viewBlockItem (top : Item) : Option BlockView :=
+  match top.arrayItems? with
+  | some [t, inner] =>
+    match t.uint?, inner.arrayItems? with
+    | some tag, some parts =>
+      if tag = 0 then
+        match parts with
+        | header :: _ => some { tag := tag, header := header, bodies := [], wits := [], auxWire := [], invalid := none, payloads := [] }
+        | _ => none
+      else if tag = 1 then
+        match parts with
+        | header :: body :: _ =>
+          match body.arrayItems? with
+          | some (txp :: _) =>
+            match txp.arrayItems? with
+            | some ps => some { tag := tag, header := header, bodies := [], wits := [], auxWire := [], invalid := none, payloads := ps }
+            | none => none
+          | _ => none
+        | _ => none
+      else
+        match parts with
+        | header :: bodies :: wits :: aux :: rest =>
+          match bodies.arrayItems?, wits.arrayItems?, aux.mapEntries? with
+          | some bs, some ws, some es =>
+            match auxEntries? es with
+            | some aw =>
+              match rest with
+              | [] => some { tag := tag, header := header, bodies := bs, wits := ws, auxWire := aw, invalid := none, payloads := [] }
+              | [inv] =>
+                match inv.arrayItems? with
+                | some xs =>
+                  match allSome Item.uint? xs with
+                  | some ns => some { tag := tag, header := header, bodies := bs, wits := ws, auxWire := aw, invalid := some ns, payloads := [] }
+                  | none => none
+                | none => none
+              | _ => none
+            | none => none
+          | _, _, _ => none
+        | _ => none
+    | _, _ => none
+  | _ => none
+
+def viewBlock (bs : Bytes) : Option BlockView :=
+  match parseItem bs with
+  | some (top, []) => viewBlockItem top
+  | _ => none
+
 end PallasVerif.TxView
